@@ -14,12 +14,23 @@ VERIF = os.path.dirname(os.path.dirname(os.path.abspath(__file__)))
 SPEC = os.path.join(VERIF, 'spec')
 HARNESS = os.path.join(VERIF, 'harness')
 BIN = os.path.join(HARNESS, 'target', 'debug', 'ohsl-conf')
-REPO = '/repo'
+REPO = os.environ.get('OHSL_REPO', '/repo')
 CP = '/opt/veriftools/tla/tla2tools.jar:/opt/veriftools/tla/CommunityModules-deps.jar'
 
 
 class ToolError(Exception):
     pass
+
+
+def prepare_harness():
+    """harness/Cargo.toml is generated: the path dependency points at $OHSL_REPO (default /repo)."""
+    t = open(os.path.join(HARNESS, 'Cargo.toml.in')).read().replace('@OHSL_REPO@', REPO)
+    p = os.path.join(HARNESS, 'Cargo.toml')
+    if not os.path.exists(p) or open(p).read() != t:
+        open(p, 'w').write(t)
+    lock = os.path.join(HARNESS, 'Cargo.lock')
+    if not os.path.exists(lock):
+        shutil.copy(os.path.join(REPO, 'Cargo.lock'), lock)
 
 
 def sh(cmd, cwd=None, env=None, timeout=None):
@@ -71,6 +82,7 @@ class Ctx:
 
     # ------------------------------------------------------------------ build
     def build(self):
+        prepare_harness()
         feats = []
         try:
             if 'verif-trace' in open(os.path.join(REPO, 'Cargo.toml')).read():
